@@ -130,7 +130,26 @@ class Session:
         sc = self.sc
         cands = mk_candles(sc["stream"], self.base, 1, k, "candle")
         self.cfgs = list(sc["inds"]) + list(sc.get("late", []))
-        if sc["obj"] == "list":
+        if sc["obj"] == "mgr":
+            from hexital.core.candle_manager import CandleManager
+
+            m = sc["mgr"]
+            tf = m.get("tf")
+            if tf and m.get("tf_form") == "lower":
+                tf = tf.lower()
+            elif tf and m.get("tf_form") == "enum":
+                from hexital import TimeFrame
+
+                tf = next((x for x in TimeFrame if x.value == tf.upper()), tf)
+            ctype = None
+            if m.get("ha"):
+                from hexital.candlesticks import CANDLESTICK_MAP
+
+                ctype = CANDLESTICK_MAP["HA"]()
+            self.obj = CandleManager(cands, candles_lifespan=m.get("life"), timeframe=tf,
+                                     timeframe_fill=bool(m.get("fill")), candlestick_type=ctype)
+            self.live, self.active = {}, []
+        elif sc["obj"] == "list":
             # a bare list of candles carrying the given readings (analysis functions)
             for cnd, rd in zip(cands, sc["readings"][:k]):
                 cnd.indicators = dict(rd)
@@ -161,6 +180,8 @@ class Session:
 
     def managers(self):
         """[(name, candle list)] of the managers that exist, default first"""
+        if self.sc["obj"] == "mgr":
+            return [("default", self.obj.candles)]
         if self.sc["obj"] == "list":
             return [("default", self.obj)]
         if self.sc["obj"] == "ind":
@@ -169,8 +190,8 @@ class Session:
 
     def observed(self):
         o = self.obj
-        if self.sc["obj"] == "list":
-            return {"at": [], "ai": 0, "orph": 0}
+        if self.sc["obj"] in ("list", "mgr"):
+            return {"at": sorted(vars(o).keys()) if self.sc["obj"] == "mgr" else [], "ai": 0, "orph": 0}
         ai = getattr(o, "_active_index", 0) if self.sc["obj"] == "ind" else 0
         out = {"at": sorted(vars(o).keys()), "ai": int(ai), "orph": 0}
         if self.sc["obj"] == "hex":
@@ -198,6 +219,8 @@ class Session:
                 self.obj.append(data)
             finally:
                 self.args = (before, flat_args(data, self.base) if not form.startswith("candle") else [])
+        elif op == "collapse" and sc["obj"] == "mgr":
+            self.obj.collapse_candles()
         elif op == "collapse":
             mgrs = ([self.obj.candle_manager] if not hexobj
                     else [self.indicator(i).candle_manager for i in self.active])
@@ -444,7 +467,8 @@ def record_scale(sc):
 def record(sc):
     if sc.get("scale"):
         return record_scale(sc)
-    tfs = [c.timeframe for c in sc["inds"] + sc.get("late", [])] + [sc.get("hex", {}).get("timeframe")]
+    tfs = ([c.timeframe for c in sc["inds"] + sc.get("late", [])] + [sc.get("hex", {}).get("timeframe")]
+           + [sc.get("mgr", {}).get("tf")])
     base = base_for([t for t in tfs if t])
     if sc.get("base"):
         # a chosen calendar day (midnight); only used with timeframes that divide a day
@@ -594,7 +618,10 @@ def record(sc):
     # manager and indicator descriptors
     mg = []
     inds = []
-    if sc["obj"] == "list":
+    if sc["obj"] == "mgr":
+        m = sc["mgr"]
+        mg.append(mgr_cfg("default", m.get("tf"), m.get("fill"), m.get("life"), m.get("ha")))
+    elif sc["obj"] == "list":
         mg.append(mgr_cfg("default", None, False, None, None))
     elif sc["obj"] == "ind":
         c = sc["inds"][0]
